@@ -124,7 +124,7 @@ def gen_annot_tree(rng, depth, dt, shape=None):
             return true_leaf(rng, n, dt, name=S.pick(rng, ["Stiefel", "plain"]) if m > n else "plain", m=m)
         return true_leaf(rng, n, dt)
     free = shape is None
-    pool = ["Scaled", "Sum", "Transpose", "Adjoint"] + (["Product", "Gram", "Sliced"] if m == n else []) + \
+    pool = ["Scaled", "Sum", "Transpose", "Adjoint"] + (["Product", "Gram", "Sliced", "Symm"] if m == n else []) + \
         (["Kronecker", "BlockDiag", "Product", "Gram", "KronSum"] if free else [])
     k = S.pick(rng, pool)
     d = depth - 1
@@ -149,6 +149,13 @@ def gen_annot_tree(rng, depth, dt, shape=None):
                     c = -2.0
                 args.insert(int(rng.integers(0, 3)), {"k": "ScalarMul", "n": n, "dt": dt, "c": c})
         return {"k": "Product", "via": S.pick(rng, ["ctor", "fn"]), "args": args}
+    if k == "Symm":
+        # symmetrised sums of one operator object and a view of itself: A + A^T is symmetric, Hermitian only for real data;
+        # A + A^H is Hermitian
+        inner = S.pick(rng, [lambda: true_leaf(rng, n, dt, "plain"), lambda: gen_annot_tree(rng, d, dt, (n, n)),
+                             lambda: {"k": "Product", "via": "ctor", "args": [true_leaf(rng, n, dt, "plain"), true_leaf(rng, n, dt, "plain")]}])()
+        return {"k": "Symm", "form": S.pick(rng, ["T", "T", "H"]), "order": int(rng.integers(0, 2)), "view": S.pick(rng, ["ctor", "fn"]),
+                "via": S.pick(rng, ["ctor", "fn"]), "arg": inner}
     if k == "Gram":
         mm = n + int(rng.integers(0, 3))
         if not free:  # result must be n x n: use the A^T A / A^H A forms of an mm x n factor, or a square factor
@@ -232,6 +239,8 @@ def node_preds(node):
         p["extra_factors"] = "+".join(x for x in ("head", "tail") if node.get(x)) or "none"
     if k == "Sliced":
         p["equal_slices"] = node["slices"][0] == node["slices"][1]
+    if k == "Symm":
+        p["form"] = node["form"]
     if k in ("Transpose", "Adjoint", "Gram", "Annot"):
         s = R.shape_of(node["arg"])
         p["arg_square"] = s[0] == s[1]
